@@ -69,12 +69,14 @@ func runC15(c *Ctx) {
 	c.rule("errors-propagate", "every error returned to the parse package by strconv / the scanner / Unquote / a callback is tested and leads to a non-nil error result (no path returns a value together with a swallowed error)", 15)
 	c.rule("syntax-agree", "writers (flag helpers' String) quote with strconv.Quote and separate with ',' (and ':' for maps); readers unquote with strconv.Unquote and split on the same runes; unsigned slices are formatted with FormatUint and parsed with ParseUint, signed ones with FormatInt/ParseInt, base 10 out / base 0 in", 8)
 	c.rule("empty-forms", "the empty string is a legitimate map key (the splitter never tests the key text against \"\" to decide whether a key was read) and the empty text is the canonical form of an empty collection (strings.Split-based parsers answer it with an empty result)", 3)
+	c.rule("single-token-per-part", "in the map splitter a token's text is stored into the key (value) state only while that part's already-read flag is false, and the store sets the flag: a second token for the same part is an error, never a silent replacement (an unparsable value is an error rather than a truncated one)", 2)
 	c.rule("pair-state-reset", "after the map splitter hands a (key, value) pair to its callback, both pieces of state are reset to \"\" on every path that continues parsing (a value must not leak into a later key that has none)", 2)
 	c.rule("dups-rejected", "Map and StringSet report an error for a key that is already present, before storing", 2)
 
 	w := c.W
 	c15Narrowing(c)
 	c15PairStateReset(c, "pair-state-reset")
+	c15SingleTokenPerPart(c, "single-token-per-part")
 	c15EmptyForms(c, "empty-forms")
 
 	// ---- parse-args ------------------------------------------------------------------
@@ -792,4 +794,172 @@ func c15EmptyForms(c *Ctx, rule string) {
 	if n == 0 {
 		c.okTrivial(rule, "parse#no-split", 0, "no strings.Split-based parser in the parse package")
 	}
+}
+
+// c15SingleTokenPerPart: in the map splitter the key and the value handed to
+// the callback are each taken from one token: every path that stores a token's
+// text into the key (value) state is guarded by a "not read yet" flag that is
+// false on that path and set true with the store, so a second token for the
+// same part is reported instead of silently replacing the first.
+func c15SingleTokenPerPart(c *Ctx, rule string) {
+	w := c.W
+	sm := w.fn("parse", "splitMap")
+	if !c.need(sm != nil, "parse.splitMap") {
+		return
+	}
+	cb := sm.Params[len(sm.Params)-1]
+	var call *ssa.Call
+	for _, i := range allInstrs(sm) {
+		if ci, ok := i.(*ssa.Call); ok && ci.Call.Value == ssa.Value(cb) && len(ci.Call.Args) == 2 {
+			call = ci
+		}
+	}
+	if call == nil {
+		c.undecided(rule, relName(sm), sm.Pos(), "the pair callback is not called directly in the splitter (state captured by a closure): single-token discipline not analysed")
+		return
+	}
+	for ai, what := range []string{"key", "value"} {
+		hp, ok := call.Call.Args[ai].(*ssa.Phi)
+		if !ok {
+			c.undecided(rule, relName(sm)+"#"+what, call.Pos(), "the %s state is not loop-carried", what)
+			continue
+		}
+		hb := hp.Block()
+		// edges carrying a token text into the state
+		type edge struct {
+			pred *ssa.BasicBlock
+			into *ssa.Phi
+			idx  int
+		}
+		var stores []edge
+		seen := map[*ssa.Phi]bool{}
+		var walk func(ph *ssa.Phi)
+		walk = func(ph *ssa.Phi) {
+			if seen[ph] {
+				return
+			}
+			seen[ph] = true
+			for ei, e := range ph.Edges {
+				if e == ssa.Value(hp) {
+					continue
+				}
+				if s, ok := constString(e); ok && s == "" {
+					continue
+				}
+				if inner, ok := e.(*ssa.Phi); ok {
+					if inner.Block() != hb && derivesTokenText(inner) == false {
+						walk(inner)
+						continue
+					}
+					if inner.Block() != hb {
+						// a merge of token texts (quoted / unquoted): treat the merge block's successor edge as the store
+					}
+				}
+				stores = append(stores, edge{ph.Block().Preds[ei], ph, ei})
+			}
+		}
+		walk(hp)
+		if len(stores) == 0 {
+			c.bad(rule, relName(sm)+"#"+what, call.Pos(), "no token is ever stored into the %s state", what)
+			continue
+		}
+		// boolean loop-carried flags
+		var flags []*ssa.Phi
+		for _, i := range hb.Instrs {
+			ph, ok := i.(*ssa.Phi)
+			if !ok {
+				break
+			}
+			if b, ok := ph.Type().Underlying().(*types.Basic); ok && b.Kind() == types.Bool {
+				flags = append(flags, ph)
+			}
+		}
+		for n, st := range stores {
+			okG := false
+			for _, fl := range flags {
+				// the store is only reachable with the flag false (formula over the loop body; && / || conditions are expanded)
+				flv := fl
+				pb := &predBuilder{name: func(v ssa.Value) string {
+					if v == ssa.Value(flv) {
+						return "alreadyRead"
+					}
+					return ""
+				}}
+				var body *ssa.BasicBlock
+				for _, sc := range hb.Succs {
+					if inLoopBody(hb, sc) && sc != hb {
+						body = sc
+					}
+				}
+				if body == nil {
+					continue
+				}
+				g := pb.pathCond(body, st.pred)
+				fb, fi := map[string]bool{}, map[string]bool{}
+				atomsOf(g, fb, fi)
+				if !fb["alreadyRead"] {
+					continue
+				}
+				if _, counter := forAll(g, nil, func(e env, fv bool) bool { return !fv || !e.B["alreadyRead"] }); counter != "" {
+					continue
+				}
+				// the same path sets the flag: the sibling phi of the flag in the merge block has const true on this edge
+				for _, i := range st.into.Block().Instrs {
+					ph, ok := i.(*ssa.Phi)
+					if !ok {
+						break
+					}
+					if cst, ok := ph.Edges[st.idx].(*ssa.Const); ok && cst.Value != nil && cst.Value.ExactString() == "true" && flowsIntoPhi(ph, fl) {
+						okG = true
+					}
+				}
+			}
+			pos := call.Pos()
+			for _, i := range st.pred.Instrs {
+				if i.Pos().IsValid() {
+					pos = i.Pos()
+				}
+			}
+			c.check(okG, rule, relName(sm)+"#"+what+"#"+itoa(n+1), pos, "the "+what+" is stored only while its 'already read' flag is false, and the store sets the flag",
+				"a token's text is stored into the "+what+" state without a 'not read yet' guard: a second token for the same "+what+" (k:\"a\" \"b\") silently replaces the first instead of being reported")
+		}
+	}
+}
+
+// derivesTokenText is a placeholder for merges of differently decoded token
+// texts; such a merge is itself a token text.
+func derivesTokenText(p *ssa.Phi) bool {
+	for _, e := range p.Edges {
+		if call, ok := e.(*ssa.Call); ok && strings.Contains(calleeFullName(call), "TokenText") {
+			return true
+		}
+		if ex, ok := e.(*ssa.Extract); ok {
+			if call, ok := ex.Tuple.(*ssa.Call); ok && calleeFullName(call) == "strconv.Unquote" {
+				return true
+			}
+		}
+	}
+	return false
+}
+
+// flowsIntoPhi: value phi a reaches the loop-header phi b through phi edges.
+func flowsIntoPhi(a, b *ssa.Phi) bool {
+	seen := map[*ssa.Phi]bool{}
+	var walk func(p *ssa.Phi) bool
+	walk = func(p *ssa.Phi) bool {
+		if p == a {
+			return true
+		}
+		if seen[p] {
+			return false
+		}
+		seen[p] = true
+		for _, e := range p.Edges {
+			if q, ok := e.(*ssa.Phi); ok && walk(q) {
+				return true
+			}
+		}
+		return false
+	}
+	return walk(b)
 }
